@@ -12,6 +12,7 @@ import (
 
 	"github.com/evolbioinfo/goalign/align"
 
+	"verif/lib/conc"
 	"verif/lib/gen"
 	"verif/lib/h"
 	"verif/lib/mon"
@@ -905,12 +906,14 @@ func main() {
 	mon.Floor("cli:several-alignments", 30)
 	mon.Floor("cli:output:stdout", 30)
 	mon.Floor("cli:output:file", 30)
+	mon.Floor("concurrent:calls", 500)
 	mon.Main("C05", []mon.Sub{
 		{Name: "witness", Quick: len(witnesses), Thorough: len(witnesses), Run: runWitness},
 		{Name: "codon", Quick: nCodonCases, Thorough: nCodonCases, Run: runCodon},
 		{Name: "seq", Quick: 300000, Thorough: 6000000, Run: runSeq},
 		{Name: "codonalign", Quick: 100000, Thorough: 2000000, Run: runCodonAlign},
 		{Name: "byref", Quick: 200000, Thorough: 3000000, Run: runByRef},
+		{Name: "concurrent", Quick: 64, Thorough: 1200, Race: true, Run: func(c *mon.Case) { conc.Run(c, "translate") }},
 		{Name: "cli", Quick: 300, Thorough: 3000, Serial: true, Run: runCli},
 	})
 }
